@@ -130,6 +130,12 @@ def vecOp (m : MS) (ar : State) (id item : Nat) (v : AsmjitVerif.Vector.Vec) (w 
     | some (item2, o) => if item2 ≠ item ∨ a = id then (m, "bad-op") else
       ({ m with vecs := alSet (alSet m.vecs id (item, o)) a (item, v) }, "ok" ++ vecState ar item o)
     | none => (m, "bad-op")
+  | "move_from" | "move_ctor" =>
+    match alGet m.vecs a with
+    | some (item2, o) => if item2 ≠ item ∨ a = id then (m, "bad-op") else
+      -- `_move_from`: this takes other's header, other is reset (the old allocation of `this` is simply dropped)
+      ({ m with vecs := alSet (alSet m.vecs id (item, o)) a (item, {}) }, "ok" ++ vecState ar item o)
+    | none => (m, "bad-op")
   | "release" => let (ar', v') := AsmjitVerif.Vector.release ar v item; fin ar' v' "ok"
   | "index_of" => fin ar v "ok" (" r=" ++ match AsmjitVerif.Vector.indexOf v (a % u32) with | some i => toString i | none => "none")
   | "last_index_of" => fin ar v "ok" (" r=" ++ match AsmjitVerif.Vector.lastIndexOf v (a % u32) with | some i => toString i | none => "none")
@@ -171,6 +177,13 @@ def hashOp (m : MS) (ar : State) (id : Nat) (t : Hash.Table) (w : List String) :
       ({ m with hashes := alSet (alSet m.hashes id o) j t }, "ok" ++ hashState ar o)
     | none => (m, "bad-op")
   | "release" => let (ar', t') := Hash.release ar t; fin ar' t' "ok"
+  | "reset" => fin ar {} "ok"                                    -- `reset()`: back to the embedded bucket, nothing is freed
+  | "move_from" =>
+    let j := nat (w.getD 3 "0")
+    match alGet m.hashes j with
+    | some o => if j = id then (m, "bad-op") else
+      ({ m with hashes := alSet (alSet m.hashes id o) j {} }, "ok" ++ hashState ar o)
+    | none => (m, "bad-op")
   | "dump" => (m, "ok" ++ hashState ar t ++ " " ++ hashDump t)
   | _ => (m, "bad-op")
 
@@ -367,6 +380,11 @@ def strOp (m : MS) (id : Nat) (s : Str.Str) (w : List String) : MS × String :=
     match alGet m.strs a with
     | some o => if a = id ∨ s.kind == .ext ∨ o.kind == .ext then (m, "bad-op") else
       ({ m with strs := alSet (alSet m.strs id o) a s }, "ok" ++ strState o)
+    | none => (m, "bad-op")
+  | "move_from" | "move_ctor" =>
+    match alGet m.strs a with
+    | some o => if a = id ∨ s.kind == .ext ∨ o.kind == .ext then (m, "bad-op") else
+      ({ m with strs := alSet (alSet m.strs id o) a {} }, "ok" ++ strState o)
     | none => (m, "bad-op")
   | "eq" => hexArg fun bs => fin s "ok" (" r=" ++ b01 (Str.equals s bs))
   | _ => (m, "bad-op")
